@@ -60,7 +60,12 @@ pub struct Case {
     /// a `Connection` field that names another field of the same response is added: both are reported like any other field
     #[serde(default)]
     pub conn_names: bool,
+    /// when > 0: a `Content-Type` field from CONTENT_TYPE_EDGES (short or odd parameter sections) is added; it is reported verbatim
+    #[serde(default)]
+    pub ctype_edge: u8,
 }
+
+pub const CONTENT_TYPE_EDGES: &[&str] = &["text/html;", "text/html; ", "text/plain; q=0.9", "application/x;v=1", "text/html; charset", "a/b;charset=", "text/plain;;", "text/plain; CHARSET=UTF-8", "text/plain;charset=\"utf-8\""];
 
 pub struct C04;
 
@@ -233,9 +238,9 @@ identical result for every segmentation. non-trivial = >=2 fields and one of {du
             proptest::collection::vec(seg(), 1..4),
             // special long-line classes
             prop_oneof![8 => Just(0u8), 2 => Just(1u8), 1 => Just(2u8)],
-            (prop_oneof![12 => Just(0u8), 1 => Just(1u8), 1 => Just(2u8), 1 => Just(3u8)], prop_oneof![5 => Just(0u8), 1 => Just(1u8), 1 => Just(2u8)], prop::bool::weighted(0.15), prop::bool::weighted(0.15)),
+            (prop_oneof![12 => Just(0u8), 1 => Just(1u8), 1 => Just(2u8), 1 => Just(3u8)], prop_oneof![5 => Just(0u8), 1 => Just(1u8), 1 => Just(2u8)], prop::bool::weighted(0.15), prop::bool::weighted(0.15), prop_oneof![4 => Just(0u8), 1 => 1u8..=CONTENT_TYPE_EDGES.len() as u8]),
         )
-            .prop_map(|(status, version, reason, max_headers, fill, mut headers, chunked, segs, long, (big_limit, coded, via_redirect, conn_names))| {
+            .prop_map(|(status, version, reason, max_headers, fill, mut headers, chunked, segs, long, (big_limit, coded, via_redirect, conn_names, ctype_edge))| {
                 match long {
                     1 => {
                         if let Some(h) = headers.first_mut() {
@@ -262,6 +267,7 @@ identical result for every segmentation. non-trivial = >=2 fields and one of {du
                     coded,
                     via_redirect,
                     conn_names,
+                    ctype_edge,
                 }
             })
             .boxed()
@@ -314,6 +320,14 @@ identical result for every segmentation. non-trivial = >=2 fields and one of {du
             n_other += 1;
             count += 1;
             ctx.label("connection-field-names-another-field");
+        }
+        if case.ctype_edge > 0 && count + 1 <= m && !fields.iter().any(|(n, _, _)| n.eq_ignore_ascii_case("content-type")) {
+            let v = CONTENT_TYPE_EDGES[(case.ctype_edge as usize - 1) % CONTENT_TYPE_EDGES.len()];
+            let at = (case.fill as usize / 5) % (fields.len() + 1);
+            fields.insert(at, ("Content-Type".to_string(), v.as_bytes().to_vec(), false));
+            n_other += 1;
+            count += 1;
+            ctx.label("content-type-with-an-odd-parameter-section");
         }
         let te_pos = if case.chunked { Some(((case.fill as usize ^ 0x5a5a) % (n_other + 1)).min(n_other)) } else { None };
 
@@ -396,7 +410,13 @@ identical result for every segmentation. non-trivial = >=2 fields and one of {du
             let followed = [301u16, 302, 303, 307, 308].contains(&case.status);
             let (res, _net, _guard) = if case.via_redirect && !followed {
                 ctx.label("reached-through-a-redirect-with-its-own-fields");
-                let hop = b"HTTP/1.1 302 Found\r\nLocation: /next\r\n\r\n".to_vec();
+                // the redirect's own body is none of the caller's business, readable or not (its head has <= 2 fields when the limit allows)
+                let hop: Vec<u8> = match (case.fill % 4, limit >= 2) {
+                    (1, true) => b"HTTP/1.1 302 Found\r\nLocation: /next\r\nContent-Length: 10\r\n\r\nabc".to_vec(),
+                    (2, true) => b"HTTP/1.1 307 Temporary Redirect\r\nLocation: /next\r\nTransfer-Encoding: chunked\r\n\r\n5\r\nhello\r\n".to_vec(),
+                    (3, true) => b"HTTP/1.1 301 Moved\r\nLocation: /next\r\nContent-Encoding: gzip\r\n\r\nthis is not gzip".to_vec(),
+                    _ => b"HTTP/1.1 302 Found\r\nLocation: /next\r\n\r\n".to_vec(),
+                };
                 let (guard, net) = crate::transport::serve_scripts(vec![vec![Ev::Data(hop), Ev::Eof], events]);
                 let res = attohttpc::get(crate::client::BASE_URL).proxy_settings(crate::client::no_proxy()).max_headers(limit).send();
                 (res, net, guard)
